@@ -179,6 +179,40 @@ std::string cmdXp(const std::vector<std::string>& f)
     return xobjText(r, ev.getExecutionContext());
 }
 
+// xpall <slot> <expr> [p=uri ...] -> one field per node of the document (walk order): the result with that node as context
+std::string cmdXpAll(const std::vector<std::string>& f)
+{
+    if (f.size() < 3) return "e\tbad request";
+    std::map<std::string, Doc*>::iterator it = g_docs.find(f[1]);
+    if (it == g_docs.end()) return "e\tno such slot";
+    Doc& d = *it->second;
+    MapResolver pr;
+    setNs(pr, f, 3);
+    XPathEvaluator ev;
+    XalanDOMString expr = dom(f[2]);
+    XPath* xp = 0;
+    try { xp = ev.createXPath(expr.c_str(), pr); }
+    catch (const XSLException& e) { return "ce\t" + esc(excText(e)); }
+    std::vector<std::pair<std::string, const XalanNode*> > all;
+    walkPaths(d.doc, "", all);
+    std::string o = "ok";
+    for (size_t i = 0; i < all.size(); ++i)
+    {
+        std::string r;
+        try
+        {
+            const XObjectPtr v(ev.evaluate(d.support(), const_cast<XalanNode*>(all[i].second), *xp, pr));
+            r = xobjText(v, ev.getExecutionContext());
+        }
+        catch (const XSLException& e) { r = "e\t" + esc(excText(e)); }
+        // nested field: replace the TAB separating type and value by 0x1f
+        for (size_t k = 0; k < r.size(); ++k) if (r[k] == '\t') r[k] = '\x1f';
+        o += "\t" + r;
+    }
+    ev.destroyXPath(xp);
+    return o;
+}
+
 std::string cmdMatch(const std::vector<std::string>& f)
 {
     if (f.size() < 3) return "e\tbad request";
@@ -321,6 +355,7 @@ int main()
                 if (f[0] == "doc") reply = cmdDoc(f);
                 else if (f[0] == "xp") reply = cmdXp(f);
                 else if (f[0] == "match") reply = cmdMatch(f);
+                else if (f[0] == "xpall") reply = cmdXpAll(f);
                 else if (f[0] == "tr") reply = cmdTr(f);
                 else if (f[0] == "ping") reply = "pong";
                 else reply = "e\tunknown command";
